@@ -18,6 +18,8 @@ import itertools
 
 import os
 
+import io
+
 from hypothesis import strategies as st
 
 from vp import core
@@ -145,7 +147,7 @@ def judge_socket(data, opts, chunks, bufsize, end):
         try:
             with S.deadline():
                 rd = S.mk_reader(sock, dict(opts, bufsize=bufsize), _handler_for(data) if opts.get("quitonerror") == 1 else None)
-                items, exc = [], None
+                items, exc, closed = [], None, False
                 for _step in range(4 * len(data) + 50):
                     try:
                         raw, parsed = rd.read()
@@ -155,7 +157,10 @@ def judge_socket(data, opts, chunks, bufsize, end):
                     if raw is None and parsed is None:
                         break
                     items.append((raw, parsed))
-                    if len(items) % 3 == 0:
+                    if mode == 0 and len(data) % 3 == 0 and len(items) == 2:
+                        sock.close()  # the application closes its own socket and drains what was received
+                        closed = True
+                    if len(items) % 3 == 0 and not closed:
                         try:
                             rd.datastream.write(b"\xb5\x62\x0a\x04\x00\x00\x0e\x34")
                         except OSError:
@@ -177,7 +182,18 @@ def judge_socket(data, opts, chunks, bufsize, end):
                 viol.append((f"{PROP}|no-preamble", f"socket transport: raw {raw[:16].hex()}"))
                 break
             pos = j + len(raw)
-        if not viol and sock._pos < len(data):
+        if not viol and closed:
+            # received bytes still sitting in the wrapper when end-of-stream was reported must not
+            # hold a complete frame
+            left = bytes(rd.datastream.buffer)
+            try:
+                more, _e = S.read_all(io.BytesIO(left), dict(opts, quitonerror=0), None, limit=4 * len(left) + 50)
+            except S.HarnessHang:
+                more = []
+            if more:
+                viol.append((f"{PROP}|abandoned-in-buffer", f"socket closed by the application: end-of-stream reported with "
+                                                            f"{len(left)} received bytes ({len(more)} complete frames) still buffered"))
+        elif not viol and sock._pos < len(data):
             # (None, None) while the peer still had bytes to deliver
             viol.append((f"{PROP}|eof-with-data-left", f"socket transport: end-of-stream reported after {n} items with "
                                                         f"{len(data) - sock._pos} of {len(data)} bytes not yet received"))
